@@ -121,8 +121,8 @@ func (t *Ty) Reflect() reflect.Type {
 }
 
 func isByteSeq(t *Ty) bool {
-	return t.K == "bytes" || (t.K == "sl" && t.Elem.K == "u8") || (t.K == "arr" && t.Elem.K == "u8") ||
-		(t.K == "named" && (t.Elem.K == "bytes"))
+	t = unnamed(t) // defined types are transparent (type Hash [4]byte, type RawMessage []byte)
+	return t.K == "bytes" || (t.K == "sl" && t.Elem.K == "u8") || (t.K == "arr" && t.Elem.K == "u8")
 }
 
 // ---- parsing ----
